@@ -31,8 +31,10 @@ THEOREMS = ['C06_dump_on_every_outcome', 'C06_view_agrees_with_file', 'C06_flush
             'C06_explicit_stdout_unusable_refuted', 'C06_explicit_nonvacuous']
 LEVEL = 'proof'
 
-KINDS = ['none', 'exit', 'kbd', 'exc']
-KCODE = {'none': 0, 'exit': 1, 'kbd': 2, 'exc': 3}
+# 'bexc': an uncaught exception that is no Exception (an application's own BaseException subclass, like
+# asyncio.CancelledError or GeneratorExit): for kernprof's try/except/finally skeleton it is kind 3 as well
+KINDS = ['none', 'exit', 'kbd', 'exc', 'bexc']
+KCODE = {'none': 0, 'exit': 1, 'kbd': 2, 'exc': 3, 'bexc': 3}
 MODES = ['l', 'lp', 'b', 'plain', 'lm', 'pm', 'explicit']
 # 'li' = kernprof -l -i 1 with a periodic dump forced while the outermost profiled call is running;
 # 'plaini' = kernprof -i 1 and 'bi' = kernprof -b -i 1: the same under cProfile, whose dump switches the profiler off
@@ -50,7 +52,11 @@ OUTCODE = {'ok': 0, 'errnone': 0, 'gone': 0, 'none': 1, 'closed': 2, 'unwritable
 # stdout rebound to a working stream and not restored (used with the -l -v modes)
 REBOUND = ['file', 'stringio', 'tee']
 TEEMOD = 'teemod_c06'
-TEE_TEXT = '''class Tee:
+TEE_TEXT = '''class Abort(BaseException):
+    """an application's own way out: not an Exception"""
+
+
+class Tee:
     """a logger installed as sys.stdout: keeps a copy and passes everything on"""
     def __init__(self, stream):
         self.stream = stream
@@ -147,6 +153,8 @@ def tick(v=0):
             raise KeyboardInterrupt
         if KIND == 'exc':
             raise ValueError('boom')
+        if KIND == 'bexc':
+            raise teemod_c06.Abort('boom')
     return v
 '''
 
@@ -285,7 +293,7 @@ def conv(events):
             if e[1] == 'tick' or re.match(r'f\d+$', e[1])]
 
 
-ENDED = {'none': 'return', 'exit': 'exit:3', 'kbd': 'kbd', 'exc': 'exc:ValueError'}
+ENDED = {'none': 'return', 'exit': 'exit:3', 'kbd': 'kbd', 'exc': 'exc:ValueError', 'bexc': 'exc:Abort'}
 
 
 def mode_cmd(mode, prog, k, kind, out='ok', showat=0, waitat=0):
@@ -594,7 +602,7 @@ def make_cases(rnd, tier, progs):
             cases.append(dict(p=pi, k=0, kind='none', mode='l'))
             for k in ks:
                 # generator program: every K, the kinds taken in turn (keeps the quick tier short)
-                for kind in ([KINDS[1 + k % 3]] if prog['gen'] else KINDS[1:]):
+                for kind in ([KINDS[1 + k % 4]] if prog['gen'] else KINDS[1:]):
                     cases.append(dict(p=pi, k=k, kind=kind, mode='l'))
             for mode in pmodes[1:]:
                 cases.append(dict(p=pi, k=0, kind='none', mode=mode))
